@@ -190,6 +190,23 @@ def shell_ids(t, out):
     return out
 
 
+KEY_HOLLOW = "ers.Stack.Push:empty-aggregate-dropped"
+
+
+def hollow(v):
+    """a non-nil error value of a foreign aggregate type (Unwrap() []error / Unwind() []error) that lists no
+    constituent, all the way down: Stack.Push flattens it to nothing although it is a non-nil error"""
+    return v is not None and v[0] in ("M", "U") and not parts(v)
+
+
+def known_witnesses():
+    return {KEY_HOLLOW: ["(case (1 999) (J (M 1)))", "(case (1 2 999) (J (U 1) N (M 2 N)))"]}
+
+
+def classify(line, obs, why):
+    return KEY_HOLLOW if "lists no constituent" in why else None
+
+
 def predicate(line, obs, allow_known=False):
     t = C.parse_sx(line)
     if obs.startswith("PANIC") or obs.startswith("bad"):
@@ -207,6 +224,10 @@ def predicate(line, obs, allow_known=False):
         if isinstance(top, list) and top[0] in ("X", "P") and supplied[0] is not None:
             pass
         if isinstance(top, list) and top[0] == "J":
+            hs = [v for v in supplied if hollow(v)]
+            if hs and obs == "nil":
+                return (f"Join returned nil although the non-nil error {label(hs[0])} was supplied (an aggregate whose "
+                        "Unwrap()/Unwind() []error lists no constituent is dropped instead of being kept as an error)")
             if (obs == "nil") != (len(ps) == 0):
                 return f"Join result nil={obs == 'nil'} but {len(ps)} constituents were supplied"
             if obs == "nil":
@@ -216,6 +237,9 @@ def predicate(line, obs, allow_known=False):
                 return "unparsable observation " + obs[:100]
             shells = shell_ids(top, set())
             for i, b in zip(ids, m.group(2)):
+                if b == "0" and any(h[1] == i for h in hs):
+                    return (f"errors.Is(result, #{i}) fails although the non-nil error {[label(h) for h in hs if h[1] == i][0]} was supplied "
+                            "(an aggregate whose Unwrap()/Unwind() []error lists no constituent is dropped instead of being kept as an error)")
                 if i in shells or b == "?":
                     continue
                 want = any(contains(p, i) for p in ps)
